@@ -341,7 +341,6 @@ def isIni : V → Bool
   | .obj kvs =>
     (match field "main".toList kvs with
      | none => true
-     | some .null => true
      | some (.obj b) => !hasFunc (.obj b)
      | some _ => false) &&
     (match field "sections".toList kvs with
